@@ -1,4 +1,6 @@
 import MobiusModel.FileOps
+import MobiusModel.Generated.FileTypes
+import MobiusModel.ListLemmas
 /-!
   C11 — File views agree and file operations carry the whole file.
 
@@ -230,5 +232,43 @@ example :
       [.newFolder none [100], .setInfo none [97] (some [99]) none, .move none [97] (some [0, 1, 0, 0, 1, 100]), .alias (some [0, 1, 0, 0, 1, 100]) [97] none]
     (handle [] (fun n => n.head? = some 46) fs (.list none)).2 =
       .list [⟨[97], [97], tyTEXT, crTTXT, 1⟩, ⟨[100], [100], tyFldr, zeros 4, 1⟩] := by decide
+
+-- ---------------------------------------------------------------- obligations over tables regenerated from the source
+
+/-- The extractor read all three tables of `hotline/file_types.go`. -/
+theorem generated_file_type_tables_readable : Generated.fileTypeProblems = [] := by decide
+
+/-- The model's extension table is the source's `fileTypes` map: same keys, no key twice, same codes. -/
+theorem generated_file_types_are_the_model :
+    (Generated.fileTypes.map (·.1)).Nodup ∧ (fileTypes.map (·.1)).Nodup ∧
+    (∀ e ∈ Generated.fileTypes, fileTypes.lookup e.1 = some e.2) ∧
+    (∀ e ∈ fileTypes, Generated.fileTypes.lookup e.1 = some e.2) ∧
+    Generated.defaultFileType = (tyTEXT, crTTXT) := by decide
+
+/-- … hence for EVERY file name the model's type/creator is what the source's tables give. -/
+theorem type_of_every_name_from_generated_tables (n : Bytes) :
+    typeOfName n = ((Generated.fileTypes.lookup ((extOf n).map lowerAscii)).getD Generated.defaultFileType) := by
+  have h := generated_file_types_are_the_model
+  unfold typeOfName
+  cases hm : fileTypes.lookup ((extOf n).map lowerAscii) with
+  | none =>
+    cases hg : Generated.fileTypes.lookup ((extOf n).map lowerAscii) with
+    | none => simp [h.2.2.2.2]
+    | some v =>
+      have hmem : ((extOf n).map lowerAscii, v) ∈ Generated.fileTypes := mem_of_lookup_eq_some _ _ _ hg
+      have := h.2.2.1 _ hmem
+      simp at this; rw [hm] at this; cases this
+  | some v =>
+    have hmem : ((extOf n).map lowerAscii, v) ∈ fileTypes := mem_of_lookup_eq_some _ _ _ hm
+    have := h.2.2.2.1 _ hmem
+    simp at this; rw [this]; simp
+
+/-- The friendly-name table of the get-info reply is the source's `friendlyCreatorNames` map. -/
+theorem generated_friendly_names_are_the_model :
+    (Generated.friendlyNames.map (·.1)).Nodup ∧ (friendlyNames.map (·.1)).Nodup ∧
+    (∀ e ∈ Generated.friendlyNames, friendlyNames.lookup e.1 = some e.2) ∧
+    (∀ e ∈ friendlyNames, Generated.friendlyNames.lookup e.1 = some e.2) := by decide
+
+example : Generated.fileTypes.length = 13 ∧ Generated.friendlyNames.length = 8 := by decide
 
 end Mobius.C11
